@@ -39,8 +39,14 @@ ASSUMPTIONS = ["PySCF AO integrals, SCF, CCSD and FCI called directly on the who
                "non-convergence (RuntimeError 'Failed to converge') is a documented outcome and counted as "
                "rejected_by_contract; a single fragment covering the molecule makes the root search degenerate and is "
                "not generated",
-               "cases whose reference SCF energies differ between the two atom orders by > 1e-7 Ha (several SCF "
-               "solutions) are skipped", "energies compared at 1e-6 Ha, link positions at 1e-7 A, MI sums at 1e-8 Ha"]
+               "cases whose reference SCF (or low-level CCSD) energies differ between the two atom orders by > 1e-7 Ha "
+               "(several SCF solutions), whose reference SCF/CCSD does not converge, or whose mean field Tangelo refuses "
+               "(ValueError 'Hartree-Fock calculation did not converge') are skipped and counted",
+               "group caps whose bond is antiparallel (within 1e-6 rad) to the group's own axis: only position, rigidity and "
+               "handedness are asserted, not the axis (scipy align_vectors is ill-conditioned there; the statement promises "
+               "the position only)",
+               "helium-containing systems are not generated (SecondQuantizedMolecule cannot be built for He on this tree)",
+               "energies compared at 1e-6 Ha, link positions at 1e-7 A, MI sums at 1e-8 Ha"]
 SHARDS = {"quick": 4, "thorough": 16}
 
 ETOL = 1e-6
@@ -87,6 +93,15 @@ def selftest():
     e_ref, _ = refchem.ci_oracle(mf.mol, mf.mo_coeff, mf.mo_coeff, range(4), range(4), [], [], 2, 2)
     assert abs(H.energy(g4, "FCI", "sto-3g") - e_ref) < 1e-8
     assert H.energy(g4, "FCI", "sto-3g") < H.energy(g4, "CCSD", "sto-3g") + 1e-6 < H.energy(g4, "HF", "sto-3g")
+
+
+def _ref(*a):
+    """Reference energy; a reference that does not converge (CCSD on near-degenerate rings, SCF) means the identity's
+    right-hand side is undefined for this input."""
+    try:
+        return H.energy(*a)
+    except H.ReferenceUndefined as ex:
+        raise Skip(str(ex))
 
 
 def _tuples(geom):
@@ -178,7 +193,7 @@ def _check_fragment_geometry(geom, frag_geom, sel, links, what):
 
 
 def _oniom_labels(case, models):
-    labs = {"sys:" + ("heavy" if case["sys"]["heavy"] else "H" + str(len(case["sys"]["geom"]))), "geometry-as-" + case["geom_format"],
+    labs = {"sys:" + ("heavy" if case["sys"]["heavy"] else "H" + str(len(case["sys"]["geom"]))), "geometry-as-" + case.get("geom_format", "list"),
             "open-shell-system" if case["sys"]["spin"] else "closed-shell-system", case["order"]}
     for m in models:
         s = m["sel"]
@@ -204,12 +219,12 @@ def oniom_same_level(ctx):
         models = [_mk_fragment(Fragment, Link, m["solver"], m["basis"], m["solver"], m["basis"], sel=m["sel"], links=m["links"],
                                charge=m["charge"], spin=m["spin"]) for m in case["models"]]
         frs = [system] + models if case["order"] == "system-first" else models + [system]
-        od = _build_oniom(ONIOMProblemDecomposition, geom, frs, case["geom_format"])
+        od = _build_oniom(ONIOMProblemDecomposition, geom, frs, case.get("geom_format", "list"))
         for m, f in zip(case["models"], models):
             _check_fragment_geometry(sysd["geom"], f.geometry, m["sel"], m["links"], "model fragment")
         _check_fragment_geometry(sysd["geom"], system.geometry, None, None, "system fragment")
         e = od.simulate()
-        ref = H.energy(sysd["geom"], case["low"], case["low_basis"], sysd["charge"], sysd["spin"])
+        ref = _ref(sysd["geom"], case["low"], case["low_basis"], sysd["charge"], sysd["spin"])
         if not np.isfinite(e) or abs(e - ref) > ETOL:
             raise Fail(f"ONIOM with model fragment(s) at identical high/low level gives {e!r}, E_low(system)={ref!r} "
                        f"({case['low']}/{case['low_basis']}), difference {e - ref:.3e}",
@@ -238,19 +253,21 @@ def oniom_whole_model(ctx):
         # reasons unrelated to the decomposition -> such inputs are outside the identity's premise
         if isinstance(case["sel"], list):
             g2 = [sysd["geom"][i] for i in case["sel"]]
-            if abs(H.energy(sysd["geom"], "HF", case["low_basis"], q, s) - H.energy(g2, "HF", case["low_basis"], q, s)) > 1e-7:
+            if abs(_ref(sysd["geom"], "HF", case["low_basis"], q, s) - _ref(g2, "HF", case["low_basis"], q, s)) > 1e-7:
                 raise Skip("reference-scf-depends-on-atom-order")
+            if case["low"] == "CCSD" and abs(_ref(sysd["geom"], "CCSD", case["low_basis"], q, s) - _ref(g2, "CCSD", case["low_basis"], q, s)) > 1e-7:
+                raise Skip("reference-ccsd-depends-on-atom-order")
         system = _mk_fragment(Fragment, Link, case["low"], case["low_basis"], charge=q, spin=s)
         model = _mk_fragment(Fragment, Link, case["low"], case["low_basis"], case["high"], case["high_basis"], sel=case["sel"], charge=q, spin=s)
         extras = [_mk_fragment(Fragment, Link, m["solver"], m["basis"], m["solver"], m["basis"], sel=m["sel"], charge=m["charge"], spin=m["spin"])
                   for m in case["extras"]]
         frs = [system, model] + extras if case["order"] == "system-first" else [model] + extras + [system]
-        od = _build_oniom(ONIOMProblemDecomposition, geom, frs, case["geom_format"])
+        od = _build_oniom(ONIOMProblemDecomposition, geom, frs, case.get("geom_format", "list"))
         _check_fragment_geometry(sysd["geom"], model.geometry, case["sel"], None, "whole-system model fragment")
         for m, f in zip(case["extras"], extras):
             _check_fragment_geometry(sysd["geom"], f.geometry, m["sel"], None, "extra model fragment")
         e = od.simulate()
-        ref = H.energy(sysd["geom"], case["high"], case["high_basis"], q, s)
+        ref = _ref(sysd["geom"], case["high"], case["high_basis"], q, s)
         if not np.isfinite(e) or abs(e - ref) > ETOL:
             raise Fail(f"ONIOM whose model is the whole system (selected_atoms={case['sel']}) gives {e!r}, "
                        f"E_high(system)={ref!r} ({case['high']}/{case['high_basis']}), difference {e - ref:.3e}",
@@ -305,7 +322,7 @@ def dmet(ctx):
         solvers = case["solvers"]
         perm = case["perm"]
         g2 = [geom[p] for p in perm]
-        e_hf1, e_hf2 = H.energy(geom, "HF", basis, q, spin), H.energy(g2, "HF", basis, q, spin)
+        e_hf1, e_hf2 = _ref(geom, "HF", basis, q, spin), _ref(g2, "HF", basis, q, spin)
         if abs(e_hf1 - e_hf2) > 1e-7:
             raise Skip("reference-scf-depends-on-atom-order")
         tight = case["optimizer"] == "newton-1e-9"
@@ -343,7 +360,7 @@ def dmet(ctx):
         all_fci = solvers == "fci" or (isinstance(solvers, list) and set(solvers) == {"fci"})
         spanning = all(s == r1["nao"] for s in r1["spans"]) and all(s == r2["nao"] for s in r2["spans"])
         if spanning and all_fci:
-            e_fci = H.energy(geom, "FCI", basis, q, spin)
+            e_fci = _ref(geom, "FCI", basis, q, spin)
             for r, tag in ((r1, "original"), (r2, "relabelled")):
                 if abs(r["e"] - e_fci) > etol:
                     raise Fail(f"every fragment+bath spans all {r['nao']} orbitals (sizes {r['spans']}) but DMET/FCI gives "
